@@ -531,7 +531,8 @@ def _ranges_worker(arg):
             if M.subkey_for_path(s).hwif(as_private=True) != walk(M, want[0]).hwif(as_private=True):
                 fails.append(("C09|ranges|subkey_for_path|%s" % feat, "subkey_for_path(%r) differs from path %s" % (s, D.path_str(want[0])), det))
         # Electrum wallets take "n" or "n/c" ranges
-        if want and all(len(p) in (1, 2) and not any(h for h, v in p) for p in want):
+        # (leading zeros are not one of the spellings the property lists; Electrum hashes the decimal TEXT of n)
+        if want and "leading0" not in feat and all(len(p) in (1, 2) and not any(h for h, v in p) for p in want):
             for W, nm in ((E, "private"), (EP, "public")):
                 rf, got = _refused(lambda: list(W.subkeys(s)))
                 n += 1
@@ -747,6 +748,276 @@ def replay_electrum(ctx, cfg, seedtexts):
     ctx.log("electrum: %d (n, c) chains x %d seeds, %d wallet comparisons" % (len(recs) - 1, len(seedtexts), tot))
 
 
+# ------------------------------------------------------------------ 4. traces (code -> spec)
+class _HmacTap:
+    """stands in for the hmac module inside pycoin.key.bip32 / BIP32Node: records every call pycoin makes"""
+
+    def __init__(self):
+        import hmac
+        self.real = hmac
+        self.calls = []
+
+    def HMAC(self, key=None, msg=None, digestmod=None):
+        h = self.real.HMAC(key=key, msg=msg, digestmod=digestmod)
+        self.calls.append((bytes(key), bytes(msg), h.digest()))
+        return h
+
+    new = HMAC
+
+
+def _b58decode_check(t):
+    v = 0
+    for c in t:
+        v = v * 58 + D._B58.index(c)
+    pad = len(t) - len(t.lstrip("1"))
+    raw = b"\0" * pad + v.to_bytes((v.bit_length() + 7) // 8, "big")
+    body, chk = raw[:-4], raw[-4:]
+    if hashlib.sha256(hashlib.sha256(body).digest()).digest()[:4] != chk:
+        raise MachineryError("pycoin produced a text with a bad checksum: %r" % t)
+    return body
+
+
+def _conc(key_obj):
+    """concrete key as logged: fields straight from the public accessors"""
+    p = D.project(key_obj)
+    return {"depth": p["depth"], "pfp": list(p["pfp"]), "cn": [1 if p["cn"][0] else 0, p["cn"][1]],
+            "chain": list(p["chain"]), "k": list(p["k"]) if p["k"] is not None else [], "K": list(p["K"])}
+
+
+_DUMMY = {"depth": 0, "pfp": [], "cn": [0, 0], "chain": [], "k": [], "K": []}
+
+
+def _facts(parents, calls, extra_scalars=()):
+    """oracle tables for one event.  hmac: the calls pycoin made (digest re-computed here);
+    pub / add / h160: computed by the reference evaluator for the keys involved."""
+    import hmac
+    F = {"hmac": [], "pub": [], "add": [], "h160": []}
+    seen = set()
+
+    def pub(kb):
+        k = int.from_bytes(kb, "big")
+        if 0 < k < D.N and ("p", kb) not in seen:
+            seen.add(("p", kb))
+            K = D.ser_p(D.Evaluator.MEMO.get(k) or D.Evaluator().mulG(k))
+            F["pub"].append([list(kb), list(K)])
+            return K
+        return None
+
+    def h160(K):
+        if ("h", K) not in seen:
+            seen.add(("h", K))
+            F["h160"].append([list(K), list(hashlib.new("ripemd160", hashlib.sha256(K).digest()).digest())])
+    for key, msg, out in calls:
+        if hmac.new(key, msg, hashlib.sha512).digest() != out:
+            raise MachineryError("intercepted HMAC digest is not HMAC-SHA512(key, msg)")
+        F["hmac"].append([list(key), list(msg), list(out)])
+    for c in parents:
+        kb = bytes(c["k"])
+        if kb:
+            K = pub(kb)
+            if K:
+                h160(K)
+        else:
+            h160(bytes(c["K"]))
+        for key, msg, out in calls:
+            if key != bytes(c["chain"]):
+                continue
+            il = int.from_bytes(out[:32], "big")
+            if il >= D.N:
+                continue
+            if kb:
+                pub(((il + int.from_bytes(kb, "big")) % D.N).to_bytes(32, "big"))
+            else:
+                try:
+                    R = D.ec_add(D.Evaluator().mulG(il), D.parse_p(bytes(c["K"])))
+                    if R is not None:
+                        F["add"].append([list(out[:32]), list(c["K"]), list(D.ser_p(R))])
+                except ValueError:
+                    pass
+    for kb in extra_scalars:
+        pub(kb)
+    return F
+
+
+def record_traces(seed, count, max_events, nets_ok):
+    """seeded random sessions on pycoin, far beyond the enumerated grid"""
+    import pycoin.key.bip32 as m1
+    import pycoin.key.BIP32Node as m2
+    from pycoin.networks.registry import network_for_netcode
+    tap = _HmacTap()
+    old = (m1.hmac, m2.hmac)
+    m1.hmac = m2.hmac = tap
+    rnd = random.Random(seed)
+    fam_nets = {"bip32": nets_ok, "bip49": [], "bip84": []}
+    for c in nets_ok:
+        pa = network_for_netcode(c).parse
+        for f in ("bip49", "bip84"):
+            if getattr(pa, "_%s_prv_prefix" % f, None) is not None:
+                fam_nets[f].append(c)
+
+    def rindex():
+        r = rnd.random()
+        if r < 0.3:
+            v = rnd.choice([0, 1, 2, 255, 256, 65535, 65536, 2 ** 24 - 1, 2 ** 24, 2 ** 24 + 1, 2 ** 31 - 2, 2 ** 31 - 1, 1000000000])
+        elif r < 0.6:
+            v = rnd.randrange(2 ** 31)
+        else:
+            v = rnd.randrange(2 ** rnd.randrange(1, 32))
+        return (rnd.random() < 0.45, v)
+    traces = []
+    try:
+        for t in range(count):
+            netsym = rnd.choice(nets_ok)
+            net = network_for_netcode(netsym)
+            sd = bytes(rnd.randrange(256) for _ in range(rnd.choice([16, 16, 32, 64, 5, 100])))
+            objs = []           # python objects by number - 1
+            info = []           # (netsym, family)
+            ev = []
+
+            def number(o, ni):
+                for i, x in enumerate(objs):
+                    if x is o:
+                        return i + 1
+                objs.append(o)
+                info.append(ni)
+                return len(objs)
+            del tap.calls[:]
+            M = net.keys.bip32_seed(sd)
+            ev.append({"op": "master", "seed": list(sd), "res": number(M, (netsym, "bip32")), "node": _conc(M),
+                       "facts": _facts([], tap.calls, [bytes(_conc(M)["k"])])})
+            cur = 1
+            for _ in range(rnd.randrange(6, max_events)):
+                o = cur if rnd.random() < 0.7 else rnd.randrange(1, len(objs) + 1)
+                obj = objs[o - 1]
+                parent = _conc(obj)
+                private = bool(parent["k"])
+                r = rnd.random()
+                del tap.calls[:]
+                if r < 0.45:
+                    h, v = rindex()
+                    want = rnd.choice(["prv", "pub", "dflt"]) if private else rnd.choice(["pub", "dflt"])
+                    rf, res = _refused(lambda: obj.subkey(i=v, is_hardened=h, as_private=WANT_ARG[want]))
+                    e = {"op": "derive", "o": o, "ix": [1 if h else 0, v], "want": want}
+                    if rf:
+                        e.update(res=0, node=_DUMMY, facts=_facts([parent], tap.calls))
+                    else:
+                        e.update(res=number(res, info[o - 1]), node=_conc(res), facts=_facts([parent], tap.calls))
+                        if parent["depth"] < 40:
+                            cur = e["res"]
+                    ev.append(e)
+                elif r < 0.55:
+                    res = obj.public_copy()
+                    ev.append({"op": "copy", "o": o, "res": number(res, info[o - 1]), "node": _conc(res), "facts": _facts([parent], [])})
+                    if rnd.random() < 0.4:
+                        cur = ev[-1]["res"]
+                elif r < 0.8:
+                    path = [rindex() for _ in range(rnd.randrange(0, 7))]
+                    if not private and rnd.random() < 0.8:
+                        path = [(False, v) for h, v in path]
+                    s = "/".join("%d%s" % (v, rnd.choice("Hp'") if h else "") for h, v in path) + (".pub" if rnd.random() < 0.3 else "")
+                    rf, res = _refused(lambda: obj.subkey_for_path(s))
+                    calls = list(tap.calls)
+                    # the intermediate keys (memoised by pycoin; fetched after the call)
+                    steps, node = [], obj
+                    for h, v in path:
+                        ok2, node = _refused(lambda: node.subkey(i=v, is_hardened=h))
+                        if ok2:
+                            break
+                        steps.append(_conc(node))
+                    e = {"op": "path", "o": o, "s": list(s), "steps": steps, "facts": _facts([parent] + steps, calls + list(tap.calls))}
+                    if rf:
+                        e.update(res=0, node=_DUMMY)
+                    else:
+                        e.update(res=number(res, info[o - 1]), node=_conc(res))
+                        if _conc(res)["depth"] < 40:
+                            cur = e["res"]
+                    ev.append(e)
+                else:
+                    fam = rnd.choice(["bip32", "bip32", "bip49", "bip84"])
+                    cands = [c for c in fam_nets[fam]]
+                    nsym = rnd.choice(cands)
+                    n2 = network_for_netcode(nsym)
+                    prv = private and rnd.random() < 0.6
+                    blob74 = obj.serialize(as_private=prv)
+                    node2 = getattr(n2.keys, fam + "_deserialize")(b"\0\0\0\0" + blob74)
+                    text = node2.hwif(as_private=prv)
+                    blob = _b58decode_check(text)
+                    ev.append({"op": "text", "o": o, "net": nsym, "fam": fam, "prv": prv, "blob": list(blob), "facts": _facts([parent], [])})
+                    # parse it back with a random reader
+                    rnet = nsym if rnd.random() < 0.6 else rnd.choice(nets_ok)
+                    rfam = fam if rnd.random() < 0.7 else rnd.choice(["bip32", "bip49", "bip84"])
+                    rf, res = _refused(lambda: getattr(network_for_netcode(rnet).parse, rfam)(text))
+                    if rf:
+                        raise_key = "raises"
+                        ev.append({"op": "parse", "net": rnet, "fam": rfam, "blob": list(blob), "res": -1, "node": _DUMMY, "facts": _facts([], [])})
+                    elif res is None:
+                        ev.append({"op": "parse", "net": rnet, "fam": rfam, "blob": list(blob), "res": 0, "node": _DUMMY, "facts": _facts([], [])})
+                    else:
+                        ev.append({"op": "parse", "net": rnet, "fam": rfam, "blob": list(blob), "res": number(res, (rnet, rfam)), "node": _conc(res),
+                                   "facts": _facts([], [], [blob[46:78]] if blob[45] == 0 else [])})
+                        if rnd.random() < 0.5:
+                            cur = ev[-1]["res"]
+            traces.append({"net": netsym, "ev": ev})
+    finally:
+        m1.hmac, m2.hmac = old
+    return traces
+
+
+def validate_traces(ctx, traces):
+    """-> sorted list of rejected trace indices (0-based)"""
+    fd, path = tempfile.mkstemp(prefix="vf-c09-traces-", suffix=".json")
+    with os.fdopen(fd, "w") as f:
+        json.dump(traces, f)
+    try:
+        r = ctx.tlc("Trace_BIP32", "Trace_BIP32", workers=1, env={"TRACE_FILE": path}, count=False, timeout=2400)
+    finally:
+        os.unlink(path)
+    for rec in r.records:
+        if isinstance(rec, dict) and rec.get("k") == "rejected":
+            if rec["n"] != len(traces):
+                raise MachineryError("trace run saw %s traces, %d were sent" % (rec["n"], len(traces)))
+            return sorted(int(x) - 1 for x in rec["ids"])
+    raise MachineryError("trace run printed no verdict: %s" % r.raw_tail[-8:])
+
+
+def first_unexplained(ctx, trace):
+    """length of the longest prefix of the trace TLC accepts (bisect by re-running prefixes)"""
+    lo, hi = 0, len(trace["ev"])
+    pre = [dict(trace, ev=trace["ev"][:i]) for i in range(1, hi + 1)]
+    rej = set(validate_traces(ctx, pre))
+    for i in range(hi):
+        if i in rej:
+            return i
+    return hi
+
+
+def run_traces(ctx, count, max_events):
+    ok, bad = available_networks()
+    traces = record_traces(ctx.seed * 6151 + 909, count, max_events, ok)
+    nev = sum(len(t["ev"]) for t in traces)
+    ops = {}
+    for t in traces:
+        for e in t["ev"]:
+            ops[e["op"]] = ops.get(e["op"], 0) + 1
+            ctx.case("trace|%s|%s" % (e["op"], "refused" if e.get("res") == 0 else "ok"), 0)
+    for ch in split(traces, max(1, len(traces) // 400)):
+        rej = validate_traces(ctx, ch)
+        ctx.traces += len(ch) - len(rej)
+        for i in rej:
+            t = ch[i]
+            k = first_unexplained(ctx, t)
+            e = t["ev"][k]
+            ctx.fail("C09|trace|op=%s|res=%s" % (e["op"], "refused" if e.get("res") == 0 else ("raises" if e.get("res") == -1 else "key")),
+                     "recorded pycoin session is not a session of BIP32.tla: event %d (%s) is not explained" % (k + 1, e["op"]),
+                     {"event": {x: e[x] for x in e if x != "facts"}, "prefix_ops": [x["op"] for x in t["ev"][:k]]})
+    ctx.case(None, nev)
+    for o, c in ops.items():
+        ctx.action("trace." + o, c)
+    ctx.sample({"trace_event": {x: traces[0]["ev"][1][x] for x in traces[0]["ev"][1] if x != "facts"}})
+    ctx.log("traces: %d sessions, %d events %s" % (len(traces), nev, ops))
+    return traces
+
+
 def make_seeds(ctx, k):
     rnd = random.Random(ctx.seed * 7919 + 90)
     lens = [16, 32, 64, 1, 17, 128]
@@ -777,3 +1048,5 @@ def run(ctx):
         rnd = random.Random(ctx.seed * 104729 + 9)
         est = ["%032x" % rnd.getrandbits(128) for _ in range(2 if q else 6)]
         replay_electrum(ctx, "MC_Electrum_q" if q else "MC_Electrum_t", est)
+    if _only(ctx, "traces"):
+        run_traces(ctx, 150 if q else 1200, 16 if q else 24)
